@@ -229,8 +229,14 @@ func (e Engine) Generate(prop, tier string, run int, seed uint64) *kernel.Scenar
 	default:
 		return nil
 	}
+	if mr := kernel.NewRand(kernel.Derive(seed, "many-channels")); prop == "C11" && mr.Bool(0.25) {
+		// many channels (the channel table outgrows whatever an iterator may
+		// hold at once) and RestoreAll iterations left open around some steps
+		nch = mr.Range(8, maxChans)
+		sc.Config["iter_pm"] = int64([]int{150, 300, 600}[mr.Intn(3)])
+	}
 	sc.Config["nch"] = int64(nch)
-	ranks := r.Perm(maxChans)
+	ranks := append(r.Perm(rankBuckets), kernel.NewRand(kernel.Derive(seed, "ranks-beyond-six")).Perm(rankBuckets)...)
 	for i := 0; i < nch; i++ {
 		n := 2 + r.Weighted([]int{7, 3, 1})
 		set := func(k string, v int) { sc.Config[fmt.Sprintf("c%d.%s", i, k)] = int64(v) }
@@ -353,7 +359,11 @@ func (e Engine) Execute(t *testing.T, sc *kernel.Scenario, trace bool) *kernel.R
 	defer w.close()
 	for i := range sc.Steps {
 		w.step = i
-		w.do(&sc.Steps[i])
+		if w.mode == modeViews && w.iterPM > 0 && int(kernel.Derive(sc.Seed, "iter-around-step", i)%1000) < w.iterPM {
+			w.interleaved(&sc.Steps[i])
+		} else {
+			w.do(&sc.Steps[i])
+		}
 		if res.Violation != nil {
 			break
 		}
